@@ -11,6 +11,7 @@ the wrapper returns Ok; C02.4 (no flag cleared without a write) on error paths.
 """
 from ..errs import dropped_results
 from ..interp import short
+from ..interp import Program as _Prog7
 from . import c04
 
 TARGETS = ('--lib',)
@@ -27,6 +28,7 @@ def run(ctx, rep):
                       'evicted dirty slices are written back or kept on every exit')
     rep.rule('C17.3', 'failed header write => rollback closure runs; failed zero/punch => zero write before Ok')
     rep.rule('C02.4', 'no dirty flag is cleared on a path on which the slice is not written')
+    rep.rule('C17.6', 'a cache is shrunk only behind the Ok outcome of flush_meta() (a slice whose write failed is clean in RAM and must stay cached for the retry)')
     rep.assume('fault model: every backend request (read, write, zero/punch, fsync) may return an error')
     # C17.1
     n_calls = 0
@@ -79,22 +81,63 @@ def run(ctx, rep):
     # fault-model flow
     d = c04.closure_cached(f, faults=True)
     rep.count('units analysed (fault model)', d.units)
-    mine = ('C17.2', 'C17.3', 'C02.4')
+    mine = ('C17.2', 'C17.3', 'C17.6', 'C02.4')
     for (rule, site), (ok, detail) in sorted(d.obl.items()):
         if rule in mine:
+            if rule == 'C17.6' and not ok and not any(v['rule'] == 'C17.2' and k.endswith(':slice') for k, v in d.viol.items()):
+                ok, detail = True, detail + ' (no slice is left clean and unwritten by a failed flush, so the position of the shrink is immaterial)'
             rep.ob(rule, site, ok, detail)
     sites = {}
     for (kind, where), info in d.sites.items():
         sites.setdefault(kind, {})[where] = info
     cleared = [w for w, i in sites.get('dirtyflag', {}).items() if i['extra'].endswith(' F')]
     rep.floor('dirty flag clears', len(cleared), 2)
+    rep.floor('cache shrink sites', len([1 for (r, _s) in d.obl if r == 'C17.6']), 1)
     bad = {k for k, v in d.viol.items() if v['rule'] in mine}
     for w in sorted(cleared):
         fn = sites['dirtyflag'][w]['fn']
         rep.ob('C17.2', 'clear@%s@%s' % (fn, w), not any(fn in k for k in bad), 'dirty flag cleared')
+    # C17.6 matters only while a failed slice write leaves the slice clean in RAM (the C17.2 ':slice' finding): were the flag
+    # raised again on the error path, shrink() could not drop an unwritten slice and its position would not matter
+    stale_clean = any(v['rule'] == 'C17.2' and k.endswith(':slice') for k, v in d.viol.items())
     for key, v in sorted(d.viol.items()):
+        if v['rule'] == 'C17.6' and not stale_clean:
+            continue
         if v['rule'] in mine:
             rep.violation(v['rule'], key, v['where'], v['msg'], {'path': v['chain']})
+    # C17.7: table writes whose dirty flags are already cleared are driven to completion
+    rep.rule('C17.7', 'no combinator that drops its unfinished members on the first error (try_join_all, try_join, select, '
+                      'abortable) is applied to futures that write cached tables: their flags are cleared before the write, so '
+                      'a cancelled member is clean in RAM and never written')
+    from ..interp import SHORT_CIRCUIT_FUTS, POLL_NAMES
+    P7 = _Prog7(f)
+    from ..flow import FlowDomain as _FD7
+    fd7 = _FD7(P7)
+    npoll = 0
+    for b in f.body_list:
+        if '::tests::' in b.path or not b.is_coroutine:
+            continue
+        for bi, t in b.calls():
+            if t.get('fn') not in POLL_NAMES or not t.get('a'):
+                continue
+            npoll += 1
+            for _tid, ty in f.walk_type(t['a'][0]):
+                if ty['k'] == 'adt' and ty['p'] in SHORT_CIRCUIT_FUTS:
+                    members = []
+                    for a_ in ty.get('a', []):
+                        members += [fu.path for fu in P7.futs(a_, ()) if fu.kind == 'async_fn']
+                    hit = sorted({short(m) for m in members if fd7._table_writer_future(m)})
+                    me = short(b.path)
+                    rep.ob('C17.7', '%s@%s %s' % (me, b.where(bi), ty['p'].split('::')[-1]), not (hit and stale_clean),
+                           'members: %s' % sorted({short(m) for m in members}))
+                    if hit and stale_clean:
+                        rep.violation('C17.7', 'C17.7:%s:%s' % (me, ty['p'].split('::')[-1]), b.where(bi),
+                                      '%s awaits %s over futures of %s: when one member fails the unfinished ones are dropped, '
+                                      'i.e. their table writes are never issued, while the dirty flags of those tables were '
+                                      'cleared before the writes were created - the tables are clean in RAM, unwritten, and a '
+                                      'retried flush_meta() skips them' % (me, ty['p'].split('::')[-1], hit))
+    rep.floor('awaits examined for short-circuiting combinators', npoll, 150)
+    rep.ob('C17.7', 'all awaits (%d)' % npoll, True, 'examined for short-circuiting combinators over table writes')
     # C17.4: no step that can fail lies between the release of a cluster and the removal of the mapping it was taken from
     rep.rule('C17.4', 'a cluster taken from a live mapping is released only after the mapping was changed (an error in between leaves a mapped cluster without refcount)')
     live = [(k, v) for k, v in d.viol.items() if v['rule'] == 'C04.O4' and ':LIVE(' in k]
